@@ -405,12 +405,11 @@ impl Category {
             }
             Category::Version => {
                 let mut parts = string.split('.');
-                parts.clone().count() <= 4
-                    && parts.all(|part| part.parse::<u16>().is_ok())
+                parts.clone().count() <= 4 && parts.all(is_decimal_u16)
             }
             Category::Language => {
                 let mut parts = string.split(',');
-                parts.all(|part| part.parse::<u16>().is_ok())
+                parts.all(is_decimal_u16)
             }
             Category::Cabinet => {
                 if let Some(substr) = string.strip_prefix('#') {
@@ -421,14 +420,21 @@ impl Category {
                     parts.reverse();
                     !parts.is_empty()
                         && !parts[0].is_empty()
-                        && parts[0].len() <= 8
-                        && (parts.len() < 2 || parts[1].len() <= 3)
+                        && parts[0].chars().count() <= 8
+                        && (parts.len() < 2 || parts[1].chars().count() <= 3)
                 }
             }
             // TODO: Validate other categories.
             _ => true,
         }
     }
+}
+
+/// Returns true if the string is a decimal numeral (digits only, so no sign)
+/// whose value fits in 16 bits.
+fn is_decimal_u16(part: &str) -> bool {
+    part.bytes().all(|byte| byte.is_ascii_digit())
+        && part.parse::<u16>().is_ok()
 }
 
 impl fmt::Display for Category {
